@@ -527,9 +527,14 @@ impl Document {
 
             cursor += 1;
 
-            if cursor >= self.tokens.len() - 1 {
+            if cursor >= self.tokens.len() {
                 break;
             }
+        }
+
+        // An initialism that runs up to the end of the input still has to be closed.
+        if let (Some(start), Some(last)) = (initialism_start, to_remove.back()) {
+            self.tokens[start].span.end = self.tokens[*last].span.end;
         }
 
         self.tokens.remove_indices(to_remove);
